@@ -110,15 +110,27 @@ def run(ctx):
     cases = cases_for(ctx)
     impl, model, diffs = ctx.differential("geo", cases, exe)
     npairs, nfull = search(ctx, cases, impl)
+    # the embedded offset expressions are not separately callable: exercise them beyond 2^32 with sparse files that are resumed
+    from checks import e2egen as G2
+    xexe = ctx.build_harness("xfer")
+    nbig = 0
+    if xexe:
+        bigs = G2.big_cases(ctx.rng, ctx.tier == "thorough")
+        rcb, bres = G2.run_xfer(ctx, xexe, "big", bigs, timeout=600)
+        ctx.oblige("harness:big", rcb == 0 and len(bres) == len(bigs), ctx.harness_stderr[-300:])
+        nbig = G2.judge_big(ctx, "C19", bigs, bres)
+    else:
+        ctx.oblige("harness.build:xfer", False, getattr(ctx, "harness_err", "")[-300:])
     ctx.coverage.update({
-        "evaluations": len(cases), "distinct_nontrivial": npairs,
+        "big_sparse_files_above_4GiB": nbig,
+        "evaluations": len(cases) + nbig, "distinct_nontrivial": npairs,
         "rule": "geo cases = exhaustive grid (size<=48|96, chunk<=12|24, idx<=total+2) + boundary triples k*c-1,k*c,k*c+1 for 16 chunk sizes + Dom corners + seeded random (size<=10TiB, chunk<2^32); non-trivial/distinct = distinct (size,chunk) pairs with chunk>0",
         "samples": cases[:3] + cases[-3:],
         "pairs_with_full_tiling_checked": nfull,
         "disagreements_model_vs_impl": len(diffs),
     })
     ctx.assumptions += ["Go int64/uint32 arithmetic is two's complement wrap-around as modelled by wrapS/wrapU",
-                        "embedded offset/total expressions are tied by regeneration only (they are not separately callable); the end-to-end checks C01/C04 exercise them"]
+                        "embedded offset/total expressions are tied by regeneration (they are not separately callable) and exercised end to end, also beyond 2^32 bytes with resumed sparse files of 4-12 GiB"]
     return ctx.finish(LEVEL)
 
 
